@@ -100,6 +100,32 @@ theorem seqFinish_res (sh : SeqShape) (pos : Nat) (ss : SeqSt) (st : St) :
     have e1 : (seqFinish sh pos ss st).2 = st.setError ss.err := by simp [seqFinish, hnil']
     rw [e1, e2]; exact ⟨fun x hx => hx, (setError_ctxErr st ss.err).2.1⟩
 
+theorem setRposNode_fst (f : File) (m : WsMode) (n : Node) (ws : Option Err) :
+    (setRposNode f m n ws).1 = (setRposNode f m n none).1 := by
+  cases n <;> simp [setRposNode]
+
+theorem mem_setRposList (f : File) (m : WsMode) : ∀ (l : List Node) (ws : Option Err) (x : Node),
+    x ∈ (setRposList f m l ws).1 → ∃ n ∈ l, x = (setRposNode f m n none).1
+  | [], ws, x, h => by simp [setRposList] at h
+  | n :: rest, ws, x, h => by
+    simp only [setRposList] at h
+    cases h with
+    | head => exact ⟨n, List.mem_cons_self .., setRposNode_fst f m n ws⟩
+    | tail _ hm =>
+      obtain ⟨n', hn', hx⟩ := mem_setRposList f m rest _ x hm
+      exact ⟨n', List.mem_cons_of_mem _ hn', hx⟩
+
+theorem mem_setRposRes (f : File) (m : WsMode) (r : Res) (x : Node) (h : x ∈ (setRposRes f m r).1.alts) :
+    ∃ n ∈ r.alts, x = (setRposNode f m n none).1 := by
+  cases r with
+  | nil => simp [setRposRes, Res.alts] at h
+  | one n =>
+    simp only [setRposRes, Res.alts, List.mem_singleton] at h
+    exact ⟨n, by simp [Res.alts], h⟩
+  | list l =>
+    simp only [setRposRes, Res.alts] at h
+    exact mem_setRposList f m l none x h
+
 theorem run_sound (cfg : Cfg) (bodyOf : Nat → G) (henv : ∀ g' ∈ cfg.env, GOK bodyOf g') :
     ∀ fuel, RunSoundOK cfg bodyOf (run cfg fuel) := by
   intro fuel
@@ -122,6 +148,23 @@ theorem run_sound (cfg : Cfg) (bodyOf : Nat → G) (henv : ∀ g' ∈ cfg.env, G
           obtain ⟨f1, f2⟩ := seqFinish_res sh pos ss st1
           exact ⟨fun x hx => hE.2 (by intro x hx; cases hx) x (f1 x hx), CacheSound_of_eq (hE.1 hcs) f2⟩
     | none =>
+    by_cases hlt : ∃ g' m, g = .ltrim g' m
+    · obtain ⟨g', m, rfl⟩ := hlt
+      have hg' : GOK bodyOf g' := by
+        have : LocalOK bodyOf (.ltrim g' m) ∧ g'.All (LocalOK bodyOf) := by simpa [GOK, G.All] using hg
+        exact this.2
+      rw [run_ltrim] at h
+      split at h
+      · cases h
+      · split at h
+        · cases h
+        · rename_i o1 st1 hr
+          have hfin : ltrimFinish pos (skipWhitespaces cfg.file pos m).1 (wsToErr (skipWhitespaces cfg.file pos m).2) o1 st1 = (o, st') := by
+            injection h
+          obtain ⟨h1, h2⟩ := ih g' ctx _ st o1 st1 hg' hcs hr
+          obtain ⟨f1, f2⟩ := ltrimFinish_res pos (skipWhitespaces cfg.file pos m).1 (wsToErr (skipWhitespaces cfg.file pos m).2) o1 st1
+          rw [hfin] at f1 f2
+          exact ⟨fun x hx => .ltrim (h1 x (f1 x hx)), CacheSound_of_eq h2 f2⟩
     unfold run at h
     split at h
     · cases h
@@ -312,8 +355,33 @@ theorem run_sound (cfg : Cfg) (bodyOf : Nat → G) (henv : ∀ g' ∈ cfg.env, G
           cases h
           obtain ⟨h1, h2⟩ := ih g' ctx pos st o1 _ hg' hcs hr
           exact ⟨fun x hx => .suppress (h1 x hx), h2⟩
-      | ltrim g' m => simp [GOK, G.All, LocalOK] at hg
-      | rtrim g' m => simp [GOK, G.All, LocalOK] at hg
+      | ltrim g' m => exact absurd ⟨g', m, rfl⟩ hlt
+      | rtrim g' m =>
+        simp only at h
+        have hg' : GOK bodyOf g' := by
+          have : LocalOK bodyOf (.rtrim g' m) ∧ g'.All (LocalOK bodyOf) := by simpa [GOK, G.All] using hg
+          exact this.2
+        split at h
+        · cases h
+        · rename_i o1 st1 hr
+          obtain ⟨h1, h2⟩ := ih g' ctx pos st o1 st1 hg' hcs hr
+          split at h
+          · cases h
+            exact ⟨fun x hx => .rtrimKeep (h1 x hx), h2⟩
+          · cases hsr : setRposRes cfg.file m o1.res with
+            | mk res' ws =>
+              simp only [hsr] at h
+              cases ws with
+              | some w => simp only at h; cases h; exact ⟨(by intro x hx; cases hx), h2⟩
+              | none =>
+                simp only at h
+                cases h
+                refine ⟨?_, h2⟩
+                intro x hx
+                have : res' = (setRposRes cfg.file m o1.res).1 := by rw [hsr]
+                rw [this] at hx
+                obtain ⟨n, hn, hxe⟩ := mem_setRposRes cfg.file m o1.res x hx
+                rw [hxe]; exact .rtrimMove (h1 n hn)
       | seq k gs o => simp [G.shape] at hsh
       | many g' ae o => simp [G.shape] at hsh
       | sepBy v s ae o => simp [G.shape] at hsh
